@@ -133,7 +133,7 @@ def byLabel (w : W) : Lbl → List (List WA)
 
 def csys : Conf.CSys W WA Lbl := { act := wact, taus := taus, byLabel := byLabel }
 
-def parseUs (s : String) : Option (List Nat) := (s.splitOn "+").mapM String.toNat?
+def parseUs (s : String) : Option (List Nat) := if s = "-" then some [] else (s.splitOn "+").mapM String.toNat?
 def okOf (s : String) : Option Bool := if s = "ok" then some true else if s = "err" then some false else none
 
 def parseTok (t : String) : Option Lbl :=
